@@ -1,6 +1,7 @@
 import MlModel.Lemmas.Registry
 import MlModel.Lemmas.OwnerExit
 import MlModel.Lemmas.OwnerEnv
+import MlModel.Lemmas.OwnerComposite
 /-!
 # C20 — worker liveness and ownership bookkeeping stays consistent
 
@@ -367,6 +368,62 @@ theorem C20_sched_registry_events (pw : Owner.Pid → List Owner.Wid) (x x' : Ow
     x'.env.reg = Registry.run x.env.reg (OwnerEnv.regEvents x t) :=
   OwnerEnv.xstep_reg hs
 
+/-! ## The composite operations as programs: `WorkerPool.run` and `call_and_wait`, step by step (round 6)
+
+In the product LTS the two operations are executed by a controller (`OwnerEnv.Ctl`): between two *pieces* (primitive
+operations of the ownership LTS: `aliveWorkers`, `nextIdle`, `submitW`, `acquireAllCall`, `finalize`) it stops at the
+operation's own yield points — clock reads, sleeps, `futures.wait`, the `done()` polls of `courier_worker.wait` — where the
+spin loops decide, from the clock and from what the environment delivered, whether to go round again.  The harness replays the
+real `WorkerPool.run` / `call_and_wait` against exactly this (family `schedc`).  The theorems say that the `finally:` cannot be
+by-passed and that when it ends nothing is left acquired — for every schedule, every clock behaviour, every fate of the replies. -/
+
+/-- **Inside a piece the controller does not move**; the outcome of a composite operation is recorded only by the step
+that ends its last piece: the finaliser (`fin p o` ↦ `o`), or — for a `run` that failed in `wait_until_alive()` before its
+`try:` — the error message (`rErr` ↦ `notStarted`). -/
+theorem C20_sched_outcome_only_at_end (pw : Owner.Pid → List Owner.Wid) (x x' : OwnerEnv.X) (t : Owner.Tid)
+    (cl : Owner.Call) (k : Owner.K) (hcur : (x.base.T t).cur = some (cl, k)) (h : OwnerEnv.xstep? pw x t = some x') :
+    (x'.env.ctl t = x.env.ctl t ∧ x'.env.outs t = x.env.outs t) ∨
+    ((x'.base.T t).cur = none ∧ x'.env.ctl t = .idle ∧
+      ((∃ p o, x.env.ctl t = .fin p o ∧ x'.env.outs t = x.env.outs t ++ [o]) ∨
+       (∃ p, x.env.ctl t = .rErr p ∧ x'.env.outs t = x.env.outs t ++ [.notStarted]))) :=
+  OwnerEnv.xstep_ctl_inCall hcur h
+
+/-- **Every way out of the `try:` goes through the `finally:`.**  A thread whose controller is inside the `try:` of
+`run` / `call_and_wait` and that is between two pieces (it has found no worker yet, it is about to sleep, to read the
+clock, to wait for a reply …) moves to another point of the `try:`, or starts the finaliser, or — only when the
+finaliser has no worker to look at and ends at once — records an outcome different from `notStarted`.  In particular the
+time-outs (`ValueError('No worker is available.')` after 180 s, `RuntimeError` of a worker that disconnected), a task that
+raised and an error reply all lead to `Ctl.fin`. -/
+theorem C20_sched_try_exits_through_finally (pw : Owner.Pid → List Owner.Wid) (x x' : OwnerEnv.X) (t : Owner.Tid)
+    (hcur : (x.base.T t).cur = none) (htry : (x.env.ctl t).inTry = true) (h : OwnerEnv.xstep? pw x t = some x') :
+    (x'.env.ctl t).inTry = true ∨ (∃ p o, x'.env.ctl t = .fin p o) ∨
+    (x'.env.ctl t = .idle ∧ ∃ o, o ≠ .notStarted ∧ x'.env.outs t = x.env.outs t ++ [o] ∧ (x'.base.T t).cur = none) :=
+  OwnerEnv.xstep_try hcur htry h
+
+/-- Before the `try:` (`run`'s `wait_until_alive()`) the controller stays there, enters the `try:`, or the operation ends
+as *not started* — the one documented way in which `run` raises without running its `finally:`. -/
+theorem C20_sched_not_started_only_before_try (pw : Owner.Pid → List Owner.Wid) (x x' : OwnerEnv.X) (t : Owner.Tid)
+    (hcur : (x.base.T t).cur = none) (hpre : (x.env.ctl t).preTry = true) (h : OwnerEnv.xstep? pw x t = some x') :
+    (x'.env.ctl t).preTry = true ∨ (x'.env.ctl t).inTry = true ∨
+    (x'.env.ctl t = .idle ∧ x'.env.outs t = x.env.outs t ++ [.notStarted]) :=
+  OwnerEnv.xstep_pretry hcur hpre h
+
+/-- **Released when `run` / `call_and_wait` returns or raises, under every schedule.**  Pool `p` is driven by thread `t`
+alone.  In any reachable configuration of the product in which `t` is inside the finaliser of a composite operation of `p`
+(`Ctl.fin p o`: `o` is what the operation will return or raise), the step that ends the operation — the controller becomes
+idle — leaves pool `p` without any acquired worker, and records `o`.  Deaths, revivals, heartbeats, clock ticks past the
+deadlines, late / failed / missing replies interleaved anywhere make no difference. -/
+theorem C20_sched_composite_released (pw : Owner.Pid → List Owner.Wid) (p : Owner.Pid) (t : Owner.Tid)
+    (x0 x x' : OwnerEnv.X) (h0 : Owner.Init x0.base)
+    (hsole : ∀ t', t' ≠ t → ∀ op ∈ (x0.base.T t').script, op.pool ≠ p)
+    (hr : OwnerEnv.XReach pw x0 x) (o : OwnerEnv.Outc) (cl : Owner.Call) (rest : List Owner.Wid)
+    (hctl : x.env.ctl t = .fin p o) (hcur : (x.base.T t).cur = some (cl, .relAll p rest true))
+    (hs : OwnerEnv.xstep? pw x t = some x') (hidle : x'.env.ctl t = .idle) :
+    Owner.acquiredWorkers pw x'.base.W p = [] ∧ x'.env.outs t = x.env.outs t ++ [o] := by
+  obtain ⟨hnone, hex, hout⟩ := OwnerEnv.xstep_fin_exit hctl hcur hs hidle
+  exact ⟨C20_released_on_exit pw p t x0.base x'.base h0 hsole
+    (OwnerEnv.XReach_base (OwnerEnv.XReach.step hr hs)) hnone hex, hout⟩
+
 /-! ## Non-vacuity: the hypotheses are satisfiable and the conclusions are reached -/
 
 section NonVacuity
@@ -430,6 +487,28 @@ example : ((OwnerEnv.xrun pw1 xcfg ([1, 1, 1] ++ List.replicate 40 0)).base.T 0)
 /-- no step of that schedule registers worker 0 (hypothesis of `C20_sched_dead_stays_dead`) -/
 example : OwnerEnv.NoRegister pw1 0 (OwnerEnv.xrun pw1 xcfg [1, 1, 1]) [0, 0, 0, 1] := by
   simp only [OwnerEnv.NoRegister]; decide
+
+/-! composite operation: thread 0 = `pool.run(task)` for pool 0 over worker 0 (alive), with the script of pieces its
+controller will ask for; thread 1 = the transport delivering the reply.  Thread 0 runs until it waits for the reply
+(`futures.wait`: blocked — the extra entries of the schedule are skipped), the reply is delivered, thread 0 runs its `finally:`. -/
+open OwnerEnv in
+def rcfg : X :=
+  ⟨⟨fun _ => {}, fun t => if t = 0 then { script := [.aliveWorkers 0 false, .nextIdle 0 [0] true, .submitW 0 0 0, .finalize 0] } else {}⟩,
+   { reg := fun a => if a = 0 then some (some 1000) else none, now := 1000, thr := 100,
+     prog := fun t => if t = 0 then [.run 0 false] else [],
+     escript := fun t => if t = 1 then [.deliver 0 false] else [] }⟩
+def rsched1 : List Tid := List.replicate 40 0
+def rsched2 : List Tid := List.replicate 40 0 ++ [1] ++ List.replicate 30 0
+
+set_option maxRecDepth 20000 in
+/-- waiting for the reply: the worker is acquired by pool 0, the controller is inside the `try:` (test by evaluation) -/
+example : ((OwnerEnv.xrun pw1 rcfg rsched1).base.W 0).pool = some 0 ∧
+    (OwnerEnv.xrun pw1 rcfg rsched1).env.ctl 0 = .rSub 0 false 0 := by decide
+set_option maxRecDepth 20000 in
+/-- after the reply and the `finally:`: outcome `ok`, nothing acquired, exit marker set (test by evaluation) -/
+example : (OwnerEnv.xrun pw1 rcfg rsched2).env.outs 0 = [.ok] ∧
+    acquiredWorkers pw1 (OwnerEnv.xrun pw1 rcfg rsched2).base.W 0 = [] ∧
+    ((OwnerEnv.xrun pw1 rcfg rsched2).base.T 0).exited = some 0 := by decide
 
 end NonVacuity
 
